@@ -17,6 +17,7 @@ checks = {
  "C12": ("exploration", "Framework-implemented commands run over a reference store whose primitives are executed by a Redis model; exhaustive index arithmetic (GETRANGE, ZREVRANGE, ZREVRANGEBYSCORE+LIMIT), counters at int64 boundaries, pair lists under every map-iteration order, short programs from every reachable state, CONFIG SET/GET: replies and final store must equal the model's.", "Trusted: the model in /verif/model (written from the Redis reference).", SEQ + " with map-iteration order as an enumerated environment answer", "§6 C12"),
  "C17": ("exploration", "All patterns up to length 3 x all keys up to length 4 (thorough 4 x 5, 13-symbol alphabet) compared with a recursive reference matcher; KEYS and SCAN MATCH through the real server for every pattern of length <=3.", "'[', ']', '\\\\' not in the alphabet; the <=5 x <=5 product not completed.", "bounded-exhaustive enumeration of (pattern,key) pairs on the real matcher and server", "§6 C17"),
  "C18": ("model_checking", "Explicit-state breadth-first search over command programs per data type; every transition is executed on a fresh real example server (replay + one command) and compared, reply and full read-out, with the Redis model; states de-duplicated by (model state, read-out).", "Trusted: the Redis model and the comparison conventions of appendix C. Depth 4 (thorough 7) from every first command.", "explicit-state BFS over the real transition function (replay on fresh instance), canonical-state de-duplication", "§6 C18"),
+ "C15": ("model_checking", "Lifecycle programs (every sequence of up to 3 Start/Stop/Restart calls, thorough 4, decorated with connecting/idle clients and with clients dialling concurrently with Stop/Restart) are executed on the real Start/Stop/Restart, accept loops and connection goroutines under a cooperative scheduler over an in-memory port namespace; every schedule within the deviation bound is explored and judged at quiescence.", "Sequentially consistent interleavings; scheduling points at go, mutex, sync.Map, listener and connection operations; deviation (delay) bound 2 (thorough 3 for <=3 calls): every schedule departing from the run-to-block default scheduler in at most that many choice points. Plain port (TLS accept loop: C09).", "stateless model checking of the implementation: controlled scheduler + DFS over schedules with deviation bounding", "§6 C15"),
  "C20": ("fault_enumeration", "Every catalogue request x {whole, failing write, unauthorised, authorised, stream end at every offset with EOF/reset}, non-command values, malformed frames and all representative pairs, with a recording tracer built on the library's own span-stack context; the start/finish log is replayed against the span discipline.", "Trusted: the span checker; the password authenticator is installed as Server.Start does.", "exhaustive enumeration of request outcomes x fault points on the real connection loop", "§6 C20"),
 }
 pending = {
@@ -24,7 +25,6 @@ pending = {
  "C09": "SCHED (real crypto/tls) check not built yet in this revision",
  "C13": "SCHED/STATE check not built yet in this revision",
  "C14": "SCHED + vector-clock race oracle not built yet in this revision",
- "C15": "SCHED lifecycle check not built yet in this revision",
  "C16": "SCHED + porcupine check not built yet in this revision",
  "C19": "SEQ+SCHED check not built yet in this revision",
 }
